@@ -239,7 +239,7 @@ static void
 family_mixed (int chunk)
 {
   /* counter-derived keys and blocks: drives the S-box pair inputs through all 4 x 4096 values */
-  int n = vh_thorough ? 4000 : 1500;
+  int n = vh_thorough ? 40000 : 1500;
   for (int t = 0; t < n; t++)
     {
       unsigned char key[8], blk[8];
